@@ -74,4 +74,83 @@ theorem Tile_Path_eq (fuel : Nat) (t : Tile.Tile) (hh : t.h ≤ 62) (hn : t.n < 
     · simp [hw, mpure]
     · simp [hw, mpure]
 
+/-! ### ParseTilePath -/
+
+/-- the int64 range condition of the `n = n*pathBase + nn` loop: every intermediate value fits -/
+def Fits (segs : List Bytes) (n0 : Nat) : Prop := ∀ j n, Tile.parseN (segs.take j) n0 = some n → n < 2 ^ 63
+
+theorem trimPrefix_x (s : Bytes) : trimPrefix s [120] = Tile.trimX s := by
+  cases s with
+  | nil => rfl
+  | cons c r =>
+    by_cases h : c = 120
+    · subst h; rfl
+    · have h1 : isPrefixOfB [120] (c :: r) = false := by
+        simp only [isPrefixOfB, Bool.and_true]
+        cases hb : ((120 : UInt8) == c) with
+        | false => rfl
+        | true => rw [beq_iff_eq] at hb; exact absurd hb.symm h
+      have h2 : Tile.trimX (c :: r) = c :: r := by
+        unfold Tile.trimX
+        split
+        · rename_i heq; simp at heq; exact absurd heq.1 h
+        · rfl
+      simp only [trimPrefix, h1, Bool.false_eq_true, ↓reduceIte, h2]
+
+/-- what the loop returns -/
+def loopOut (len : Nat) : Option Nat → Ctl (GTile × Option String) (Int × Int)
+  | some m => Ctl.next ((len : Int), (m : Int))
+  | none => Ctl.ret ((default : GTile), some "badPathError")
+
+theorem ParseTilePath_loop1_eq (path : Bytes) : ∀ (segs pre : List Bytes) (n fuel : Nat),
+    segs.length < fuel → Fits segs n →
+    Generated.Tile.ParseTilePath_loop1 path (pre ++ segs) fuel (pre.length : Int) (n : Int) =
+      .ok (loopOut (pre ++ segs).length (Tile.parseN segs n)) := by
+  intro segs
+  induction segs with
+  | nil =>
+    intro pre n fuel hf _
+    obtain ⟨g, rfl⟩ : ∃ g, fuel = g + 1 := ⟨fuel - 1, by omega⟩
+    have : ¬ ((pre.length : Int) < len (pre ++ [])) := by simp [len]
+    simp [Generated.Tile.ParseTilePath_loop1, this, Tile.parseN, loopOut, mpure]
+  | cons s rest ih =>
+    intro pre n fuel hf hfit
+    obtain ⟨g, rfl⟩ : ∃ g, fuel = g + 1 := ⟨fuel - 1, by omega⟩
+    simp only [List.length_cons] at hf
+    have hlt : ((pre.length : Int) < len (pre ++ s :: rest)) := by simp [len]; omega
+    have hidx : idxL (pre ++ s :: rest) (pre.length : Int) = .ok s := by
+      rw [idxL_natCast' (by simp)]; simp
+    rw [Generated.Tile.ParseTilePath_loop1]
+    simp only [hlt, decide_true, ↓reduceIte, hidx, mbind_ok, trimPrefix_x]
+    cases hp : Decimal.parseInt64 (Tile.trimX s) with
+    | none =>
+      have := atoi_none _ hp
+      simp [this, Tile.parseN, hp, loopOut, mpure]
+    | some nn =>
+      rw [atoi_some _ _ hp]
+      by_cases hbad : nn < 0 ∨ nn ≥ 1000
+      · have hb : (decide (nn < 0) || decide (nn ≥ 1000)) = true := by
+          rcases hbad with h | h <;> simp [h]
+        have hb' : (nn < 0 || nn ≥ 1000) = true := hb
+        simp [Tile.parseN, hp, hb, loopOut, mpure]
+      · have h0 : ¬ nn < 0 := by omega
+        have h1 : ¬ nn ≥ 1000 := by omega
+        have hstep : Tile.parseN (s :: rest) n = Tile.parseN rest (n * 1000 + nn.toNat) := by
+          simp [Tile.parseN, hp, h0, h1, Tile.pathBase]
+        have hfit1 := hfit 1 (n * 1000 + nn.toNat) (by
+          simp [Tile.parseN, hp, h0, h1, Tile.pathBase])
+        have e1 : (n : Int) * 1000 = ((n * 1000 : Nat) : Int) := by omega
+        have e2 : ((n * 1000 : Nat) : Int) + nn = ((n * 1000 + nn.toNat : Nat) : Int) := by omega
+        have e3 : (pre.length : Int) + 1 = (((pre ++ [s]).length : Nat) : Int) := by simp
+        have e4 : pre ++ s :: rest = (pre ++ [s]) ++ rest := by simp
+        have hfit' : Fits rest (n * 1000 + nn.toNat) := by
+          intro j m hm
+          apply hfit (j + 1) m
+          simp only [List.take_succ_cons]
+          rw [← hm]
+          simp [Tile.parseN, hp, h0, h1, Tile.pathBase]
+        simp only [Option.isNone_none, Bool.not_true, h0, h1, decide_false, Bool.or_self, Bool.false_eq_true, ↓reduceIte,
+          e1, chk64_natCast (show n * 1000 < 2 ^ 63 by omega), mbind_ok, e2, chk64_natCast hfit1, e3]
+        rw [e4, ih (pre ++ [s]) (n * 1000 + nn.toNat) g (by omega) hfit', hstep]
+
 end ModVerif.TieFnTile
